@@ -80,6 +80,9 @@ MUTANTS = [
     ("tagged-multiply-builtin-overflow-unsigned", "C15", "tagged.Multiply", "mypyc/lib-rt/CPy.h", "        if (!CPyTagged_IsMultiplyOverflow(left, right)) {\n            return left * CPyTagged_ShortAsSsize_t(right);\n        }", "        CPyTagged product;\n        if (!__builtin_mul_overflow(left, CPyTagged_ShortAsSsize_t(right), &product)) {\n            return product;\n        }", "violation"),
     ("tagged-multiply-builtin-overflow-signed-harmless", "C15", "tagged.Multiply", "mypyc/lib-rt/CPy.h", "        if (!CPyTagged_IsMultiplyOverflow(left, right)) {\n            return left * CPyTagged_ShortAsSsize_t(right);\n        }", "        Py_ssize_t product;\n        if (!__builtin_mul_overflow((Py_ssize_t)left, CPyTagged_ShortAsSsize_t(right), &product)) {\n            return (CPyTagged)product;\n        }", "pass"),
     ("write-cache-restats-source", "C02", "proto.write_cache", "mypy/build.py", "    st = manager.get_stat(path)\n    if st is None:\n        manager.log(f\"Cannot get stat for {path}\")", "    try:\n        st = os.stat(path)\n    except OSError:\n        st = None\n    if st is None:\n        manager.log(f\"Cannot get stat for {path}\")", "violation"),
+    ("typeinfo-flag-order-swapped-in-read", "C11", "nodes.TypeInfo", "mypy/nodes.py", "            ti.is_protocol,\n            ti.runtime_protocol,\n            ti.is_final,", "            ti.runtime_protocol,\n            ti.is_protocol,\n            ti.is_final,", "violation"),
+    ("typeinfo-self-type-not-written", "C11", "nodes.TypeInfo", "mypy/nodes.py", "        mypy.types.write_type_opt(data, self.self_type)\n        if self.dataclass_transform_spec is None:", "        mypy.types.write_type_opt(data, None)\n        if self.dataclass_transform_spec is None:", "violation"),
+    ("typeinfo-abstract-status-zip-swapped", "C11", "nodes.TypeInfo", "mypy/nodes.py", "        ti.abstract_attributes = list(zip(attrs, statuses))", "        ti.abstract_attributes = list(zip(statuses, attrs))", "violation"),
     ("enabled-parent-check-dropped", "C13", "is_error_code_enabled", "mypy/errors.py", "elif error_code.sub_code_of is not None and error_code.sub_code_of in current_mod_disabled:\n            return False", "elif error_code.sub_code_of is not None and error_code.sub_code_of in current_mod_enabled:\n            return False", "violation"),
 ]
 
